@@ -315,7 +315,7 @@ func TestC08_Derived(t *testing.T) {
 	c := harness.New(t, "C08", "derived",
 		"from generated valid templates (text, {{ }} with strings containing }} {{ @end quotes and newlines, object/array literals, comments, @if/@elseif/@else, @each, @for, break/continue, @dump, @reserve/@insert/@component with slots/@slot): (a) the template itself; (b) every proper prefix that ends inside a construct (after its complete opener, before its complete closer: unterminated {{ }}, string, object literal, comment, directive argument list, block without @end) must be rejected with an error; (c) an illegal character (# \\ & | ^ ~ $ ` @ or a non-ASCII byte) inserted inside code outside strings must be rejected; (d) single-lexeme deletion, duplication and adjacent swap: program or error. Non-trivial: the template has >= 1 construct. Distinct by hash of the derived source.")
 	defer c.Finish()
-	runRapid(t, c, 1500, 5000, func(rt *rapid.T) {
+	runRapid(t, c, 1500, 15000, func(rt *rapid.T) {
 		sg := &synGen{g: &exprGen{}}
 		stmts := sg.stmts(rt, 2, false)
 		lay := genLayout().Draw(rt, "layout")
@@ -427,7 +427,7 @@ func TestC08_Soup(t *testing.T) {
 		"random soups: 0..40 lexemes from the alphabet (with occasional random bytes) concatenated; program-or-error oracle. Non-trivial: contains an opener. Distinct by hash.")
 	defer c.Finish()
 	alpha := c08Alphabet()
-	runRapid(t, c, 40000, 150000, func(rt *rapid.T) {
+	runRapid(t, c, 40000, 450000, func(rt *rapid.T) {
 		n := rapid.IntRange(0, 40).Draw(rt, "n")
 		var b strings.Builder
 		for i := 0; i < n; i++ {
@@ -490,7 +490,7 @@ func TestC08_Trees(t *testing.T) {
 		"a sample of sources (generated valid templates, their prefixes inside constructs, lexeme soups) written as the only page, as the layout of a page and as a component of a page in a template directory and loaded with NewTemplate: returns (template, nil) or (nil, error), never panics or hangs; prefixes inside constructs must fail the load. Non-trivial: contains an opener. Distinct by hash of role + source.")
 	defer c.Finish()
 	alpha := c08Alphabet()
-	runRapid(t, c, 1500, 6000, func(rt *rapid.T) {
+	runRapid(t, c, 1500, 18000, func(rt *rapid.T) {
 		var cs parseCase
 		if rapid.Bool().Draw(rt, "soup") {
 			cs.Src = strings.Join(rapid.SliceOfN(rapid.SampledFrom(alpha), 0, 12).Draw(rt, "lx"), "")
